@@ -362,4 +362,9 @@ class Parser:
 def qparse(query, k):
     if not isinstance(query, str):
         raise QParseError(f"query is not a string: {type(query).__name__}")
+    if k.get("state_expr"):
+        m = re.match(r"^IDX<[^>]*> ", query)
+        if not m:
+            raise QParseError("state prefix missing")
+        query = query[m.end():]
     return Parser(query, k).parse()
